@@ -33,8 +33,31 @@ def _func(src, name):
         if ln and not ln[0].isspace():
             break
         lines.append(ln)
+    _check_decl_types(name, m2.group(1), sig)
     return sig, re.sub(r"\s+", " ", m2.group(1)), \
         ast.parse(textwrap.dedent("\n".join(lines))).body
+
+
+def _check_decl_types(name, block, sig):
+    """every C local is an int (counters, bounds) or has the element type of
+    the arrays (DFIELD_t, binary64): a narrower temporary would round every
+    term before it is accumulated; the arrays themselves are DFIELD_t"""
+    text = re.sub(r"\\\n", " ", block)
+    for ln in text.splitlines():
+        ln = ln.strip()
+        if not ln:
+            continue
+        if ln.startswith("ndarray["):
+            if not ln.startswith("ndarray[DFIELD_t,"):
+                raise Unsupported(f"{name}: array declaration `{ln}`")
+            continue
+        m = re.match(r"(\w+)\s+\w+", ln)
+        if not m or m.group(1) not in ("int", "DFIELD_t"):
+            raise Unsupported(f"{name}: local declaration `{ln}` is neither "
+                              "int nor DFIELD_t")
+    for m in re.finditer(r"ndarray\[(\w+),", sig):
+        if m.group(1) != "DFIELD_t":
+            raise Unsupported(f"{name}: argument array of type {m.group(1)}")
 
 
 def u(n):
